@@ -107,4 +107,6 @@ Proof.
     w3. exists r, d, t0. rewrite (upd_other _ _ _ _ Nd). auto.
   - (* 28 *) assert (Nd : d <> d0) by (intros <-; rewrite Hfin in Heqo0; discriminate Heqo0).
     w3. exists r, d, t0. rewrite (upd_other _ _ _ _ Nt), (upd_other _ _ _ _ Nd). auto.
+  - (* 29 EEnvCancel *) assert (Nd : d <> d0) by (intros <-; rewrite Hfin in Heqb0; discriminate Heqb0).
+    w3. exists r, d, t0. rewrite (upd_other _ _ _ _ Nt), (upd_other _ _ _ _ Nd). auto.
 Qed.
